@@ -29,7 +29,8 @@ META = {"engine": "B history + D doubles", "technique": "connection-table model 
         "level_text": "all short operation sequences are enumerated and longer ones sampled; the model is a plain dict",
         "level_note": "peer addresses repeat only because doubles (or an RST + re-bind over loopback) make them repeat"}
 
-HOST = "127.0.0.1"
+from vf import net
+HOST = net.host()       # a loopback address of this process alone (see vf/net.py)
 EHA = (HOST, 9000)
 ADDR = {"A": (HOST, 40001), "B": (HOST, 40002), "C": (HOST, 40003)}
 
